@@ -453,9 +453,32 @@ func runLifeSchedule(mp *ModelProc, r *Rng, max int, nsteps int, fixed []string)
 		}
 		// compare the observable state
 		started, n := lr.srv.VerifSnapshot()
+		diverged := false
+		// the registry itself: same connections in the same order as the model's list
+		{
+			var want []string
+			for _, cid := range st.clients {
+				want = append(want, lr.addrOf[cid])
+			}
+			got := lr.srv.VerifClientAddrs()
+			if n == len(st.clients) && strings.Join(got, ",") != strings.Join(want, ",") {
+				o.fail("correspondence", "registry", strings.Join(got, ","), strings.Join(want, ","), "after step "+step)
+				// model-independent: every registered entry must be a connection that was admitted and not yet removed
+				seen := map[string]int{}
+				for _, a := range got {
+					seen[a]++
+				}
+				for a, k := range seen {
+					if k > 1 {
+						o.fail("property", "registry-duplicate", a+" registered "+fmt.Sprint(k)+" times", "each served connection registered once", "a finished connection's removal damaged the list of served connections: a slot is lost")
+					}
+				}
+				return o
+			}
+		}
 		if started != st.started || n != len(st.clients) {
 			o.fail("correspondence", "snapshot", fmt.Sprintf("started=%v clients=%d", started, n), fmt.Sprintf("started=%v clients=%d (%s)", st.started, len(st.clients), st.raw), "after step "+step)
-			return o
+			diverged = true
 		}
 		// property oracles that do not depend on the model
 		if n > max {
@@ -489,6 +512,19 @@ func runLifeSchedule(mp *ModelProc, r *Rng, max int, nsteps int, fixed []string)
 			if !lr.peerSeesClosed(id, 300*time.Millisecond) {
 				o.fail("property", "rejected-not-closed", "connection still open", "closed by the server", "a connection over the limit must be closed")
 			}
+		}
+		if diverged {
+			// the implementation left the model: probe the property directly on this connection, then stop
+			if id != 0 && lr.conns[id] != nil && (f[0] == "decide" || f[0] == "launch") {
+				if f[0] == "decide" {
+					lr.letGo("decided", id)
+					time.Sleep(2 * time.Millisecond)
+				}
+				if !started && lr.request(id) {
+					o.fail("property", "served-after-stop", fmt.Sprintf("connection %d was served although the server is stopped", id), "not served", "a connection that was being accepted while Stop ran reached a handler afterwards")
+				}
+			}
+			return o
 		}
 		if f[0] == "stop" {
 			// listener closed; every registered connection closed
@@ -588,6 +624,32 @@ var lifeCorpus = []struct {
 	{2, "start;start;arrive 1;accept 0 1;decide 1;launch 1;request 1;finish 1 proto;remove 1;close 1;stop;stop;exit 0"},
 	{1, "start;arrive 1;accept 0 1;decide 1;launch 1;request 1;finish 1 idle;remove 1;close 1;arrive 2;accept 0 2;decide 2;launch 2;request 2"},
 	{3, "start;arrive 1;accept 0 1;decide 1;launch 1;arrive 2;accept 0 2;decide 2;launch 2;arrive 3;accept 0 3;decide 3;launch 3;finish 2 peer;remove 2;close 2;finish 1 peer;finish 3 peer;remove 3;remove 1;close 1;close 3;arrive 4;accept 0 4;decide 4;launch 4;request 4"},
+}
+
+func init() {
+	perms := [][]int{{1, 2, 3}, {1, 3, 2}, {2, 1, 3}, {2, 3, 1}, {3, 1, 2}, {3, 2, 1}}
+	for _, p := range perms {
+		st := "start"
+		for c := 1; c <= 3; c++ {
+			st += fmt.Sprintf(";arrive %d;accept 0 %d;decide %d;launch %d", c, c, c, c)
+		}
+		st += ";arrive 4;accept 0 4;decide 4;launch 4;request 4"
+		for _, c := range p {
+			st += fmt.Sprintf(";finish %d peer;remove %d;close %d", c, c, c)
+		}
+		for c := 5; c <= 7; c++ {
+			st += fmt.Sprintf(";arrive %d;accept 0 %d;decide %d;launch %d;request %d", c, c, c, c, c)
+		}
+		lifeCorpus = append(lifeCorpus, struct {
+			max   int
+			steps string
+		}{3, st})
+	}
+	// four sessions, the first one ends first (position 0 of 4), then the rest in reverse
+	lifeCorpus = append(lifeCorpus, struct {
+		max   int
+		steps string
+	}{4, "start;arrive 1;accept 0 1;decide 1;launch 1;arrive 2;accept 0 2;decide 2;launch 2;arrive 3;accept 0 3;decide 3;launch 3;arrive 4;accept 0 4;decide 4;launch 4;finish 1 peer;remove 1;close 1;request 2;request 3;request 4;finish 4 peer;remove 4;close 4;finish 3 proto;remove 3;close 3;finish 2 peer;remove 2;close 2;arrive 5;accept 0 5;decide 5;launch 5;request 5"})
 }
 
 func lifeCheck(prop string) checkFn {
